@@ -54,6 +54,12 @@ def LCentral (t : LTimer) (inSet : Bool) (newId : Nat) (a : LAct) (m : LMon) (id
   lcheck false t.kind idf m e = none ∧ LR (m.after t.kind idf e) r.1 ∧ linv r.1 = true ∧ r.1.kind = t.kind ∧
   (r.1.finished = false → newInSet r.2.2.1 inSet = decide (r.1.clears > 0))
 
+theorem lstep1_id_some (t : LTimer) (id : Nat) (h : t.id = some id) (inSet : Bool) (newId : Nat) (a : LAct) :
+    (lstep1 t inSet newId a).1.id = some id := by
+  rcases t with ⟨k, tid, f, rq, c⟩
+  simp only at h; subst h
+  cases a <;> simp only [lstep1] <;> (repeat' split) <;> rfl
+
 macro "lbash" : tactic => `(tactic|
   simp (config := {decide := true}) [LCentral, lstep1, lentry, lcheck, LMon.after, LR, labs, linv, newInSet, respOf,
       Req.resolve, Req.drop, shell_beq, res_beq, bne])
@@ -72,8 +78,11 @@ theorem lcentral (t : LTimer) (inSet : Bool) (newId : Nat) (a : LAct) (m : LMon)
     cases id with
     | none => simp [linv] at hi
     | some id =>
-      have hidf : idf = some id := by
-        cases a <;> simp [lstep1] at hid <;> (try split at hid) <;> simp_all
+      have hidf : some id = idf := by
+        rw [lstep1_id_some _ id rfl] at hid
+        rcases hid with h | h
+        · cases h
+        · exact h
       subst hidf
       clear hid
       cases a with
@@ -94,15 +103,18 @@ theorem lcentral (t : LTimer) (inSet : Bool) (newId : Nat) (a : LAct) (m : LMon)
       obtain ⟨rfl, rfl, rfl⟩ := this
       cases a with
       | start =>
-        have : idf = some newId := by simpa [lstep1] using hid
+        have : some newId = idf := by simpa [lstep1] using hid
         subst this; cases k <;> lbash
       | startClear =>
-        have : idf = some newId := by simpa [lstep1] using hid
+        have : some newId = idf := by simpa [lstep1] using hid
         subst this; cases k <;> lbash
       | _ => cases idf <;> lbash
     | some id =>
-      have hidf : idf = some id := by
-        cases a <;> simp [lstep1] at hid <;> (try split at hid) <;> simp_all
+      have hidf : some id = idf := by
+        rw [lstep1_id_some _ id rfl] at hid
+        rcases hid with h | h
+        · cases h
+        · exact h
       subst hidf
       clear hid
       cases a with
@@ -111,5 +123,44 @@ theorem lcentral (t : LTimer) (inSet : Bool) (newId : Nat) (a : LAct) (m : LMon)
           first | (exfalso; revert hi; simp (config := {decide := true}) [linv]; done) | lbash
       | _ => cases k <;> cases rs <;> cases ra <;> cases clears <;>
           first | (exfalso; revert hi; simp (config := {decide := true}) [linv]; done) | lbash
+
+theorem linv_fresh (k : Kind) : linv { kind := k } = true := by
+  simp (config := {decide := true}) [linv]
+
+theorem LR_fresh (k : Kind) : LR {} { kind := k } := by
+  right
+  refine ⟨rfl, ?_⟩
+  simp (config := {decide := true}) [labs]
+
+theorem lfinal1_id_some (newId : Nat) (acts : List LAct) : ∀ (t : LTimer) (inSet : Bool) (id : Nat),
+    t.id = some id → (lfinal1 newId t inSet acts).id = some id := by
+  induction acts with
+  | nil => intro t _ id h; exact h
+  | cons a rest ih =>
+    intro t inSet id h
+    simp only [lfinal1]
+    exact ih _ _ id (lstep1_id_some t id h inSet newId a)
+
+/-- the lenient legacy monitor accepts every run of one legacy timer whose membership flag is in sync -/
+theorem lverdict1_ltrace1 (newId : Nat) (acts : List LAct) : ∀ (t : LTimer) (inSet : Bool) (m : LMon),
+    linv t = true → LR m t → (t.finished = false → inSet = decide (t.clears > 0)) →
+    lverdict1 false t.kind (lfinal1 newId t inSet acts).id m (ltrace1 newId t inSet acts) = none := by
+  induction acts with
+  | nil => intro t inSet m _ _ _; rfl
+  | cons a rest ih =>
+    intro t inSet m hi hR hs
+    have hid : (lstep1 t inSet newId a).1.id = none ∨
+        (lstep1 t inSet newId a).1.id = (lfinal1 newId t inSet (a :: rest)).id := by
+      cases h : (lstep1 t inSet newId a).1.id with
+      | none => exact Or.inl rfl
+      | some id => right; simp only [lfinal1]; rw [lfinal1_id_some newId rest _ _ id h]
+    have hc := lcentral t inSet newId a m _ hi hR hs hid
+    obtain ⟨h1, h2, h3, h4, h5⟩ := hc
+    simp only [ltrace1, lverdict1]
+    rw [h1]
+    simp only []
+    have := ih (lstep1 t inSet newId a).1 (newInSet (lstep1 t inSet newId a).2.2.1 inSet) _ h3 h2 h5
+    rw [h4] at this
+    simpa [lfinal1] using this
 
 end Lemmas.Timer
